@@ -230,7 +230,10 @@ def gen_api_case(rng, metric, family, cid):
     if sum(sizes) < k + 2:
         sizes.append(k + 2)
     return {"id": cid, "metric": metric, "family": family, "k": k, "search_size": ss, "sizes": sizes,
-            "dim": rng.choice([2, 3, 5]), "dseed": rng.randint(0, 2 ** 31 - 1), "index_seed": rng.randint(0, 10 ** 6)}
+            "dim": rng.choice([2, 3, 5]), "dseed": rng.randint(0, 2 ** 31 - 1), "index_seed": rng.randint(0, 10 ** 6),
+            # every fifth case: connect_graph, index.update(moved rows), connect_graph again on the same index object;
+            # every fourth cosine case: the same directions at norms ~1e-8 (cosine is scale free)
+            "update": cid % 5 == 2, "scale_exp": -30 if (metric == "cosine" and cid % 4 == 1) else 0}
 
 
 def make_data(case):
@@ -278,7 +281,8 @@ def make_data(case):
                 pts = centre + 2.0 * r.standard_normal((s, dim))
             rows.append(pts)
     X = np.vstack(rows).astype(np.float32)
-    return X[r.permutation(X.shape[0])]
+    X = X[r.permutation(X.shape[0])]
+    return (X * np.float32(2.0 ** case.get("scale_exp", 0))).astype(np.float32)
 
 
 def true_distance(metric, x, y):
@@ -346,6 +350,15 @@ def worker_main(casefile, outfile):
                 key = json.dumps(key)
             except Exception:  # the function no longer has these locals: no cycle detection, the alarms remain
                 key = None
+            try:
+                if len(obs.get("fe_calls", [])) < 25 and "cur_rounds" in obs:
+                    sd = int(L["query_side"])
+                    obs["cur_rounds"].append({"side": sd, "idx": [[int(v) for v in L["indices"][0]], [int(v) for v in L["indices"][1]]],
+                                              "cand": [int(v) for v in L["candidate_indices"]], "ch": [bool(L["changed"][0]), bool(L["changed"][1])],
+                                              "inds": [[int(v) for v in row] for row in r[0]],
+                                              "dists": [[int(np.float32(v).view(np.uint32)) for v in row] for row in r[1]]})
+            except Exception:  # noqa
+                obs.pop("cur_rounds", None)
             st = obs.setdefault("loop", {"seen": {}, "rounds": 0})
             st["rounds"] += 1
             obs["max_rounds"] = max(obs.get("max_rounds", 0), st["rounds"])
@@ -359,8 +372,12 @@ def worker_main(casefile, outfile):
     real_fe = gu.find_component_connection_edge
 
     def fe_wrap(*a, **k):
+        obs["cur_rounds"] = []
         r = real_fe(*a, **k)
         obs["edges"].append([int(r[0]), int(r[1]), float(r[2])])
+        if obs.get("cur_rounds") and len(obs["fe_calls"]) < 25:
+            obs["fe_calls"].append({"rounds": obs["cur_rounds"], "ret": [int(r[0]), int(r[1]), int(np.float32(r[2]).view(np.uint32))]})
+        obs.pop("cur_rounds", None)
         return r
 
     gu.rejection_sample, gu.deheap_sort, gu.find_component_connection_edge = rs_wrap, ds_wrap, fe_wrap
@@ -369,7 +386,7 @@ def worker_main(casefile, outfile):
     emit({"ev": "hello", "n": len(cases)})
     first = {}
     for case in cases:
-        obs.clear(); obs.update({"id": case["id"], "rs": [], "edges": []})
+        obs.clear(); obs.update({"id": case["id"], "rs": [], "edges": [], "fe_calls": []})
         emit({"ev": "start", "id": case["id"]})
         rec = {"ev": "done", "id": case["id"], "violations": [], "exception": None}
         try:
@@ -378,66 +395,80 @@ def worker_main(casefile, outfile):
             k = min(case["k"], X.shape[0] - 1)
             index = NNDescent(X, n_neighbors=k, metric=metric, random_state=case["index_seed"])
             index.prepare()
-            ni, nd = index.neighbor_graph
-            graph = gu.adjacency_matrix_representation(ni, nd)
-            G = graph.toarray()
-            ncomp, lab = connected_components(graph)
-            sizes = np.bincount(lab).tolist()
-            rec.update({"n": int(X.shape[0]), "k": int(k), "n_components": int(ncomp), "component_sizes": sorted(sizes),
-                        "input_symmetric": bool(np.array_equal(G, G.T)), "input_nnz": int(graph.nnz)})
-            # soft (interruptible) deadline for the whole call: one search costs ~50 ms, there are C(ncomp, 2) of them, the
-            # first call per metric also compiles the closure's callees; generous because the children share the machine
-            soft = (20.0 if first.get(metric) else 40.0) + 0.5 * ncomp * (ncomp - 1) / 2
-            first[metric] = True
-            emit({"ev": "connect", "id": case["id"]})
-            obs["phase"] = "connect"
-            signal.setitimer(signal.ITIMER_REAL, soft)
-            t0 = time.time()
-            try:
-                result = gu.connect_graph(graph, index, search_size=case["search_size"])
-            finally:
-                signal.setitimer(signal.ITIMER_REAL, 0)
-            rec["connect_s"] = round(time.time() - t0, 3)
-            obs["phase"] = "predicate"
-            R = result.toarray()
-            bad = rec["violations"]
-            if not np.array_equal(R, R.T):
-                i, j = [int(v) for v in np.argwhere(R != R.T)[0]]
-                bad.append(["asymmetric", "result[%d,%d]=%r but result[%d,%d]=%r" % (i, j, float(R[i, j]), j, i, float(R[j, i]))])
-            lost = np.argwhere((G != 0) & (R != G))
-            if len(lost):
-                i, j = [int(v) for v in lost[0]]
-                bad.append(["input-edge-changed", "input entry (%d,%d)=%r is %r in the result (%d such entries)"
-                            % (i, j, float(G[i, j]), float(R[i, j]), len(lost))])
-            nres, _ = connected_components(result)
-            if nres != 1:
-                zero = [e for e in obs["edges"] if e[2] == 0.0]
-                if zero:
-                    bad.append(["disconnected:zero-length-edge",
-                                "result has %d connected components (input had %d): %d of the %d connecting edges found have (surrogate) length 0.0 "
-                                "- e.g. internal vertices (%d,%d) - and `result[i, j] = 0.0` stores nothing in the sparse result"
-                                % (nres, ncomp, len(zero), len(obs["edges"]), zero[0][0], zero[0][1])])
-                else:
-                    bad.append(["disconnected", "result has %d connected components (input had %d), %d connecting edges were returned"
-                                % (nres, ncomp, len(obs["edges"]))])
-            added = np.argwhere((G == 0) & (R != 0))
-            rec["added_entries"] = int(len(added))
-            worst = 0.0
-            for i, j in added:
-                i, j = int(i), int(j)
-                if lab[i] == lab[j]:
-                    bad.append(["edge-inside-component", "added entry (%d,%d) joins two points of input component %d" % (i, j, int(lab[i]))])
-                    break
-                td = true_distance(metric, X[i], X[j])
-                err = abs(float(R[i, j]) - td) / td if td > 0 else (0.0 if R[i, j] == 0 else float("inf"))
-                worst = max(worst, err)
-                if not abs(float(R[i, j]) - td) <= REL_TOL * td + ABS_TOL[metric] + (FLOAT32_EPS if td == 0.0 else 0.0):
-                    bad.append(["edge-weight", "added entry (%d,%d) has weight %r, the %s distance of its endpoints is %r (rel. err %.3g)"
-                                % (i, j, float(R[i, j]), metric, td, err)])
-                    break
-            rec["worst_rel_err"] = worst
-            if len(added) > ncomp * (ncomp - 1):
-                bad.append(["too-many-edges", "%d entries added for %d components" % (len(added), ncomp)])
+            for phase in range(2 if case.get("update") else 1):
+                if phase == 1:
+                    # history: the same index object after update() - whatever connect_graph keeps between calls must not be stale
+                    obs["phase"] = "build"
+                    ur = np.random.default_rng(case["dseed"] + 1)
+                    nu = max(1, X.shape[0] // 6)
+                    ui = np.sort(ur.choice(X.shape[0], size=nu, replace=False))
+                    X = X.copy()
+                    moved = X[ur.permutation(X.shape[0])[:nu]] * np.float32(1.0 + 0.03 * ur.standard_normal((nu, 1))) \
+                        + np.float32(2.0 ** case.get("scale_exp", 0)) * (0.2 * np.abs(ur.standard_normal((nu, X.shape[1])))).astype(np.float32)
+                    X[ui] = moved.astype(np.float32)
+                    index.update(xs_updated=X[ui], updated_indices=ui)
+                    index.prepare()
+                    rec["phase"] = "after-update"
+                ni, nd = index.neighbor_graph
+                graph = gu.adjacency_matrix_representation(ni, nd)
+                G = graph.toarray()
+                ncomp, lab = connected_components(graph)
+                sizes = np.bincount(lab).tolist()
+                rec.update({"n": int(X.shape[0]), "k": int(k), "n_components": int(ncomp), "component_sizes": sorted(sizes),
+                            "input_symmetric": bool(np.array_equal(G, G.T)), "input_nnz": int(graph.nnz)})
+                # soft (interruptible) deadline for the whole call: one search costs ~50 ms, there are C(ncomp, 2) of them, the
+                # first call per metric also compiles the closure's callees; generous because the children share the machine
+                soft = (20.0 if first.get(metric) else 40.0) + 0.5 * ncomp * (ncomp - 1) / 2
+                first[metric] = True
+                emit({"ev": "connect", "id": case["id"]})
+                obs["phase"] = "connect"
+                signal.setitimer(signal.ITIMER_REAL, soft)
+                t0 = time.time()
+                try:
+                    result = gu.connect_graph(graph, index, search_size=case["search_size"])
+                finally:
+                    signal.setitimer(signal.ITIMER_REAL, 0)
+                rec["connect_s"] = round(time.time() - t0, 3)
+                obs["phase"] = "predicate"
+                R = result.toarray()
+                bad = rec["violations"]
+                if not np.array_equal(R, R.T):
+                    i, j = [int(v) for v in np.argwhere(R != R.T)[0]]
+                    bad.append(["asymmetric", "result[%d,%d]=%r but result[%d,%d]=%r" % (i, j, float(R[i, j]), j, i, float(R[j, i]))])
+                lost = np.argwhere((G != 0) & (R != G))
+                if len(lost):
+                    i, j = [int(v) for v in lost[0]]
+                    bad.append(["input-edge-changed", "input entry (%d,%d)=%r is %r in the result (%d such entries)"
+                                % (i, j, float(G[i, j]), float(R[i, j]), len(lost))])
+                nres, _ = connected_components(result)
+                if nres != 1:
+                    zero = [e for e in obs["edges"] if e[2] == 0.0]
+                    if zero:
+                        bad.append(["disconnected:zero-length-edge",
+                                    "result has %d connected components (input had %d): %d of the %d connecting edges found have (surrogate) length 0.0 "
+                                    "- e.g. internal vertices (%d,%d) - and `result[i, j] = 0.0` stores nothing in the sparse result"
+                                    % (nres, ncomp, len(zero), len(obs["edges"]), zero[0][0], zero[0][1])])
+                    else:
+                        bad.append(["disconnected", "result has %d connected components (input had %d), %d connecting edges were returned"
+                                    % (nres, ncomp, len(obs["edges"]))])
+                added = np.argwhere((G == 0) & (R != 0))
+                rec["added_entries"] = int(len(added))
+                worst = 0.0
+                for i, j in added:
+                    i, j = int(i), int(j)
+                    if lab[i] == lab[j]:
+                        bad.append(["edge-inside-component", "added entry (%d,%d) joins two points of input component %d" % (i, j, int(lab[i]))])
+                        break
+                    td = true_distance(metric, X[i], X[j])
+                    err = abs(float(R[i, j]) - td) / td if td > 0 else (0.0 if R[i, j] == 0 else float("inf"))
+                    worst = max(worst, err)
+                    if not abs(float(R[i, j]) - td) <= REL_TOL * td + ABS_TOL[metric] + (FLOAT32_EPS if td == 0.0 else 0.0):
+                        bad.append(["edge-weight", "added entry (%d,%d) has weight %r, the %s distance of its endpoints is %r (rel. err %.3g)"
+                                    % (i, j, float(R[i, j]), metric, td, err)])
+                        break
+                rec["worst_rel_err"] = worst
+                if len(added) > ncomp * (ncomp - 1):
+                    bad.append(["too-many-edges", "%d entries added for %d components" % (len(added), ncomp)])
         except LoopCycle:
             c = obs["cycle"]
             rec["violations"].append(["timeout:alternating-loop-cycle",
@@ -458,6 +489,7 @@ def worker_main(casefile, outfile):
                 rec["exception"] = "%s: %s" % (type(e).__name__, str(e)[:300])
                 rec["exception_phase"] = obs.get("phase", "build")
         rec["rs"] = obs["rs"]
+        rec["fe_calls"] = obs.get("fe_calls", [])
         rec["n_edges_found"] = len(obs["edges"])
         rec["max_rounds"] = obs.get("max_rounds", 0)
         emit(rec)
@@ -584,6 +616,8 @@ def check_api_record(res, case, rec):
              if (ncomp >= 2 and len(small) >= 1 and not rec.get("violations")) else None)
     for kind, what in rec.get("violations", []):
         res.violation("connect:" + kind, what, {**key_case, "component_sizes": sizes})
+    if rec.get("fe_calls") and not rec.get("violations"):
+        check_loop_calls(res, key_case, rec["fe_calls"])
     # every rejection_sample call the real code made: clamp precondition + exact agreement with the model
     calls = rec.get("rs", [])
     if calls:
@@ -599,6 +633,49 @@ def check_api_record(res, case, rec):
             if c[0] != min(case["search_size"], c[1]):
                 res.corr_fail("clamped_sample_size", {"n_samples": c[0], "pool_size": c[1], **key_case},
                               "min(search_size, |component|) = %d" % min(case["search_size"], c[1]), c[0])
+
+
+def altloop_line(call):
+    rounds = call["rounds"]
+    secs = []
+    for rd in rounds:
+        sd = rd["side"]
+        secs.append("%d ; %s ; %s ; %d ; %s ; %s" % (sd, ints_row(rd["idx"][sd]), ints_row(rd["cand"]), len(rd["inds"][0]),
+                                                 ints_row([v for row in rd["inds"] for v in row]), ints_row([v for row in rd["dists"] for v in row])))
+    return "altloop %d | %s | %s | %s" % (len(rounds) + 5, ints_row(rounds[0]["idx"][0]), ints_row(rounds[0]["idx"][1]), " | ".join(secs))
+
+
+def check_loop_calls(res, key_case, calls):
+    """the real loop of find_component_connection_edge, round by round, against Model/Connect.lean `altLoopSeen` driven by the
+    recorded search results: same loop keys at the top of every iteration, same number of searches, same best edge"""
+    usable = []
+    for c in calls:
+        rs = c["rounds"]
+        ok = bool(rs) and rs[0]["side"] == 0 and all(rd["inds"] and rd["inds"][0] for rd in rs)
+        for rd in rs:
+            sd = rd["side"]
+            if rd["cand"] != rd["idx"][1 - sd]:
+                res.corr_fail("alt_loop_candidates", {**key_case, "round": rd["side"]}, "candidate_indices = indices[1 - query_side]", rd["cand"][:10])
+                ok = False
+            if any(v < 0 for row in rd["inds"] for v in row[:1]) or len(rd["inds"]) != len(rd["idx"][sd]):
+                ok = False            # a query row without any result: np.unique would hand on -1 (outside the model, reported by the predicate)
+                res.count("api_loop_calls_unfilled_first_column")
+        if ok:
+            usable.append(c)
+    if not usable:
+        return
+    model = run_driver([altloop_line(c) for c in usable])
+    for c, m in zip(usable, model):
+        res.count("api_loop_calls_compared"); res.count("api_loop_rounds_compared", len(c["rounds"]))
+        keys = " | ".join("%d %s ; %s ; %d %d" % (rd["side"], ints_row(rd["idx"][0]), ints_row(rd["idx"][1]), int(rd["ch"][0]), int(rd["ch"][1]))
+                          for rd in c["rounds"])
+        impl_tail = "%s | %d %d %d" % (keys, c["ret"][0], c["ret"][1], c["ret"][2])
+        parts = m.split(" | ", 1)
+        head = parts[0].split()
+        if len(parts) == 2 and len(head) == 2 and head[1] == "1":
+            res.count("api_loop_exits_through_cycle_guard")
+        if len(parts) != 2 or len(head) != 2 or int(head[0]) != len(c["rounds"]) or parts[1] != impl_tail:
+            res.corr_fail("alt_loop_rounds", {**key_case, "searches": len(c["rounds"])}, m[:400], ("%d ? | " % len(c["rounds"])) + impl_tail[:400])
 
 
 def api_collect(res, batches, all_cases, first_deadline, case_deadline, max_restarts, budget):
